@@ -498,6 +498,11 @@ def shrink(plan):
                 new["texts"] = (plan["texts"][:ti] + [nt]
                                 + plan["texts"][ti + 1:])
                 yield new
+    from zcsim import xmlshrink
+    for xml in xmlshrink.candidates(plan["schema_xml"]):
+        new = dict(plan)
+        new["schema_xml"] = xml
+        yield new
 
 
 def sample(plan):
